@@ -64,7 +64,7 @@ def minDate : List Date → Option Date
   | [] => none
   | d :: l => some (l.foldl (fun m x => if x < m then x else m) d)
 
-def maxDate : List Date → Option Date
+def maxDateAgg : List Date → Option Date
   | [] => none
   | d :: l => some (l.foldl (fun m x => if m < x then x else m) d)
 
@@ -77,7 +77,7 @@ def aggregateEval (t : List Cell) (res : Option (Int × String)) (origin : Date)
     match standardizeResolution q s with
     | .error e => .error e
     | .ok (q, u) =>
-      match minDate (t.map (·.ev)), maxDate (t.map (·.ev)) with
+      match minDate (t.map (·.ev)), maxDateAgg (t.map (·.ev)) with
       | some first, some last =>
         match validEvals q u origin first last with
         | none => .error .other
